@@ -290,6 +290,29 @@ def c_string_misc(rng):
     return which, vals, lambda: bytes(v & 0xFF for v in vals)
 
 
+def c_buffer_bits(rng):
+    """buffer/bit, bit-set, bit-clear, bit-toggle: index in [0, 8*len) or an error; writers change exactly one bit and return the buffer."""
+    b = gen_bytes(rng, 0, 5)
+    n = len(b)
+    which = rng.choice(["buffer/bit", "buffer/bit-set", "buffer/bit-clear", "buffer/bit-toggle"])
+    idx = rng.choice([0, 1, 7, 8, 8 * n - 1, 8 * n, 8 * n + 1, 8 * n + 7, 8 * n + 8, -1, rng.randrange(0, 8 * n + 1)])
+    def f():
+        if idx < 0 or idx >= 8 * n:
+            raise Raise()
+        byte, bit = idx >> 3, idx & 7
+        if which == "buffer/bit":
+            return bool(b[byte] & (1 << bit))
+        nb = bytearray(b)
+        if which == "buffer/bit-set":
+            nb[byte] |= (1 << bit)
+        elif which == "buffer/bit-clear":
+            nb[byte] &= ~(1 << bit) & 0xFF
+        else:
+            nb[byte] ^= (1 << bit)
+        return ("mut", Buf(bytes(nb)), [Buf(bytes(nb)), idx])
+    return which, [Buf(b), idx], f
+
+
 def c_take_drop(rng):
     kind = rng.choice(["ints", "ints", "bytes"])
     if kind == "ints":
@@ -734,7 +757,7 @@ def c_alias(rng):
 
 GENS = [(c_string_find, 10), (c_string_replace, 8), (c_string_split, 8), (c_string_join, 4), (c_string_slice, 8), (c_string_trim, 5), (c_string_misc, 8),
         (c_take_drop, 6), (c_take_while, 4), (c_partition, 4), (c_interleave, 8), (c_range, 4), (c_minmax, 10), (c_mapreduce, 8), (c_sort, 10),
-        (fmt_cases, 12), (fmt_long, 2), (fmt_errors, 1), (c_alias, 4)]
+        (fmt_cases, 12), (fmt_long, 2), (fmt_errors, 1), (c_alias, 4), (c_buffer_bits, 5)]
 _WEIGHTED = [g for g, w in GENS for _ in range(w)]
 
 
